@@ -91,6 +91,13 @@ def main():
             bad = [x for x in ax if x not in common.ALLOWED_AXIOMS]
             if bad:
                 broken.append(f"{n}: axioms {bad}")
+        if tier == "thorough":
+            # independent re-check of the compiled proofs (the toolchain's own replay of the .olean files through the kernel)
+            mods = [f[:-5].replace("/", ".") for f in mod.PROP_FILES]
+            rc, out = common.sh(["lake", "env", "leanchecker"] + mods, cwd=common.LEAN, timeout=3000)
+            notes.append(f"leanchecker {' '.join(mods)}: rc={rc}")
+            if rc != 0:
+                broken.append("leanchecker: " + out[-400:])
     for h in common.forbidden_scan(mod.PROP_FILES + ["N2k/Driver/Core.lean"]):
         broken.append("forbidden token: " + h)
     for p in rel_problems:
